@@ -71,6 +71,14 @@ impl Rng {
         &xs[self.below(xs.len())]
     }
 
+    /// Fisher-Yates.
+    pub fn shuffle<T>(&mut self, xs: &mut [T]) {
+        for i in (1..xs.len()).rev() {
+            let j = self.below(i + 1);
+            xs.swap(i, j);
+        }
+    }
+
     pub fn fork(&mut self) -> Rng {
         Rng(mix(self.next_u64()))
     }
